@@ -261,7 +261,7 @@ def _cgam(point, names):
     out = []
     for n in names:
         re = float(point.get(n, 1.0))
-        out.append(complex(re, 0.37 * re + 0.11))
+        out.append(complex(re, 0.37 * re + (0.11 if re else 0.0)))  # an exactly vanishing coefficient stays exactly zero
     return out
 
 
